@@ -12,9 +12,9 @@ func init() {
 		ID:         "C08",
 		Level:      "other",
 		Technique:  "one scalar table for both paths (kind-context conformance of the table-driven fast path and of the reflection codec), fast-path gate rule (every use of protoiface.Methods is obtained from protoMethods and nil-guarded, with a reflection fallback), size/append agreement on both paths, option-flag bridges (static)",
-		Explain:    "Decides structural necessary conditions of `fast path and reflection path are indistinguishable`: (1) both paths are checked against the same protobuf scalar table: in every Kind-dependent branch of internal/impl and of package proto the wire primitives, value transforms, Go types and bit sizes are those the Kind prescribes, so the two paths cannot disagree on a field's wire form; (2) every fast-path method used by package proto (Marshal, Unmarshal, Size, Merge, CheckInitialized, Equal) is read from the value returned by protoMethods(m), is called only after `methods != nil` and `methods.F != nil` were established, and each caller contains the reflection fallback; with the protoreflect build tag protoMethods returns nil; (3) the fast path is bypassed when it does not support a requested option (Deterministic, DiscardUnknown); (4) size and append agree on both paths (R-SIZE-APPEND), unknown-field handling and required-field checking are decided for both paths under C09 and C10.",
+		Explain:    "Decides structural necessary conditions of `fast path and reflection path are indistinguishable`: (1) both paths are checked against the same protobuf scalar table: in every Kind-dependent branch of internal/impl and of package proto the wire primitives, value transforms, Go types and bit sizes are those the Kind prescribes, so the two paths cannot disagree on a field's wire form; (2) every fast-path method used by package proto (Marshal, Unmarshal, Size, Merge, CheckInitialized, Equal) is read from the value returned by protoMethods(m), is called only after `methods != nil` and `methods.F != nil` were established, and each caller contains the reflection fallback; with the protoreflect build tag protoMethods returns nil; (3) the fast path is bypassed when it does not support a requested option (Deterministic, DiscardUnknown); (4) the two deterministic map-key comparators (fast path and reflection path) order every key kind by the direct comparison of the kind's own value; the reflection map decoder allocates an entry's message value once per entry (merging split values like the fast path) and replaces entries with a repeated key; (5) size and append agree on both paths (R-SIZE-APPEND), unknown-field handling and required-field checking are decided for both paths under C09 and C10.",
 		NotCovered: "equality of observable results on concrete messages; dynamicpb and legacy wrappers; the list/map loops of the reflection encoder.",
-		Quick:      all("./proto", "./internal/impl"),
+		Quick:      all("./proto", "./internal/impl", "./internal/order", "./encoding/protojson", "./encoding/prototext"),
 		Thorough:   []ConfigLoad{{"default", []string{"./..."}}, {"reflect", []string{"./proto"}}},
 		Run: func(c *Ctx) {
 			if c.P.Config == "reflect" {
@@ -24,6 +24,9 @@ func init() {
 			c.ruleKindContext("R-KIND-CONTEXT", []string{"proto", "internal/impl"}, 100)
 			c.ruleFastPathGate("R-FASTPATH-GATE")
 			c.ruleSizeAppend("R-SIZE-APPEND", []string{"internal/impl", "proto"}, sizeAppendNotAnalysed, 130)
+			c.ruleMapKeyOrder("R-MAPKEY-ORDER")
+			c.ruleMapEntryOnce("R-MAP-ENTRY-ONCE")
+			c.ruleMapReplace("R-MAP-REPLACE")
 		},
 	})
 }
